@@ -106,7 +106,10 @@ def _propka_stub(pkas):
         rows = []
 
         def row(chain, num, resname, rtype, pka, icode=" "):
-            rows.append({"res_num": num, "ins_code": icode, "res_name": resname, "chain_id": chain, "group_label": f"{rtype:<3s}{num:>4d}{chain:>2s}", "group_type": rtype, "pKa": pka, "model_pKa": 0.0, "buried": 0.0, "coupled_group": None})
+            # group_type as propka/group.py sets it: 'COO' for ASP, GLU AND for the C-terminus (CtermGroup: "COO-C- parameter
+            # unification"), 'N+' for the N-terminus, the residue name for HIS/CYS/TYR/LYS/ARG; the label keeps "C-"
+            gtype = {"ASP": "COO", "GLU": "COO", "C-": "COO"}.get(rtype, rtype)
+            rows.append({"res_num": num, "ins_code": icode, "res_name": resname, "chain_id": chain, "group_label": f"{rtype:<3s}{num:>4d}{chain:>2s}", "group_type": gtype, "pKa": pka, "model_pKa": 0.0, "buried": 0.0, "coupled_group": None})
 
         chains = []
         for ch, _n, _r, _i in residues:
